@@ -32,6 +32,8 @@ func runC13(c *Ctx) {
 	c13Reader(c, gd)
 	c13Chart(c, gd)
 	c13Determinism(c, gd)
+	c13IDType(c, gd)
+	cToolchainPred(c, c.Root(), "C13.partition-counts-ids")
 	// re-writing a merged or chart object must replace it (otherwise a shorter re-merge keeps stale records)
 	c18Writer(c, gd, "C13.rewrite-replaces")
 	_ = r
@@ -651,4 +653,58 @@ func appendIsSortedLater(fn *ssa.Function, app *ssa.Call) bool {
 		}
 	}
 	return false
+}
+
+// c13IDType: a report's identity is its X; the type that carries it through partition's ID sets
+// must not be narrower than X's own type (a float32 key merges distinct reports whose X agree
+// to seven digits and counts them once).
+func c13IDType(c *Ctx, gd *Module) {
+	r := c.R
+	wp := gd.Pkg("cmd/worker")
+	obj := wp.Pkg.Scope().Lookup("reportID")
+	xType := "?"
+	for _, p := range gd.Prog.AllPackages() {
+		if strings.HasSuffix(p.Pkg.Path(), "x/telemetry/internal/telemetry") {
+			if ro := p.Pkg.Scope().Lookup("Report"); ro != nil {
+				if st, ok := ro.Type().Underlying().(*types.Struct); ok {
+					for i := 0; i < st.NumFields(); i++ {
+						if st.Field(i).Name() == "X" {
+							xType = st.Field(i).Type().Underlying().String()
+						}
+					}
+				}
+			}
+		}
+	}
+	got := "reportID not found"
+	ok := false
+	if obj != nil {
+		got = obj.Type().Underlying().String()
+		ok = got == xType && xType != "?"
+	}
+	pos := "-"
+	if obj != nil {
+		pos = gd.Pos(obj.Pos())
+	}
+	r.Check("C13.partition-counts-ids", "reportID has the type of Report.X", pos, ok, "Report.X is "+xType+"; reportID is "+got)
+}
+
+// cToolchainPred: IsToolchainProgram(p) is exactly "p begins with cmd/". The chart worker drops the
+// Version partition of toolchain programs and the configuration answers HasVersion for them from
+// the Go version list: widening the predicate silently re-classifies configured programs.
+func cToolchainPred(c *Ctx, m *Module, rule string) {
+	r := c.R
+	f := m.Func("internal/telemetry", "IsToolchainProgram")
+	n := 0
+	for _, ex := range exitPaths(f) {
+		n++
+		v := strip(refine(ex.vals[0], ex.facts))
+		ok := false
+		if cl, isCall := v.(*ssa.Call); isCall && calleeName(&cl.Call) == "strings.HasPrefix" {
+			k, isC := constOf(argsOf(cl)[1])
+			ok = isC && k == "cmd/" && argsOf(cl)[0] == ssa.Value(f.Params[0])
+		}
+		r.Check(rule, fmt.Sprintf("IsToolchainProgram/result #%d is HasPrefix(path, \"cmd/\")", n), m.Pos(ex.ret.Pos()), ok, "got "+shortDesc(describe(v)))
+	}
+	r.Check(rule, "IsToolchainProgram/results enumerated", m.Pos(f.Pos()), n >= 1, fmt.Sprintf("%d", n))
 }
